@@ -233,7 +233,7 @@ Proof.
   intros w r F w' e wr H a. unfold step_req in H. fold a in H.
   destruct (exec (st_phase (v_st w)) a) as [k u]. cbn [fst snd].
   destruct k.
-  - apply sync_job_outcome; exact H.
+  - apply (sync_job_outcome w u F); exact H.
   - apply (kill_pods_outcome w r0 None u F); exact H.
   - apply (kill_pods_outcome w RNone (Some (target_of a r)) u F); exact H.
 Qed.
@@ -336,24 +336,24 @@ Theorem retry_increments_once : forall w r F w' e wr,
    (st_retry s' = st_retry s + 1 /\ st_phase s' = PhRestarting /\ st_phase s <> PhRestarting)) /\
   (st_phase s <> PhRestarting -> st_phase s' = PhRestarting -> st_retry s' = st_retry s + 1).
 Proof.
-  intros w r F w' e wr H s s'. pose proof (step_req_outcome _ _ _ _ _ _ H) as O. cbv zeta in O.
+  intros w r F w' e wr H s s'. subst s s'. pose proof (step_req_outcome _ _ _ _ _ _ H) as O. cbv zeta in O.
   set (a := apply_policies (v_spec w) (v_st w) r) in *.
-  pose proof (tbl_restart_ok (st_phase s) a) as T. unfold tbl_restart in T.
-  apply andb_true_iff in T. destruct T as [T1 T2]. fold s in O.
-  set (u := snd (exec (st_phase s) a)) in *.
+  pose proof (tbl_restart_ok (st_phase (v_st w)) a) as T. unfold tbl_restart in T.
+  apply andb_true_iff in T. destruct T as [T1 T2].
+  set (u := snd (exec (st_phase (v_st w)) a)) in *.
   destruct (oc_core _ _ _ _ _ _ _ O) as [(Kr & Kp)|M].
-  - split; [left; exact Kr|]. intros Hne Hre. exfalso. fold s' in Kp.
+  - split; [left; exact Kr|]. intros Hne Hre. exfalso.
     destruct Kp as [E|E]; rewrite Hre in E.
     + congruence.
-    + destruct (st_phase s); cbn in E; congruence.
-  - fold s' in M. split.
+    + destruct (st_phase (v_st w)); cbn in E; congruence.
+  - split.
     + destruct (moved_retry _ _ _ _ M) as [E|(Eu & Er & Ep)]; [left; exact E|].
       right. repeat split; auto. rewrite Eu in T2. cbn in T2.
       intro Hc. rewrite Hc in T2. discriminate.
     + intros Hne Hre. destruct (moved_retry _ _ _ _ M) as [E|(Eu & Er & Ep)]; [|exact Er].
       exfalso. destruct (moved_phase _ _ _ _ M) as [Ep|[Ep|Ep]].
       * congruence.
-      * rewrite Hre in Ep. destruct (st_phase s); cbn in Ep; congruence.
+      * rewrite Hre in Ep. destruct (st_phase (v_st w)); cbn in Ep; congruence.
       * rewrite Hre in Ep. apply phase_in_In in Ep. rewrite Ep in T1.
         apply orb_true_iff in T1. destruct T1 as [T1|T1].
         -- destruct M as (b & Hr & Hp & Hp' & Hr').
@@ -423,3 +423,214 @@ Proof.
   intros w r F w' e wr H. pose proof (step_req_outcome _ _ _ _ _ _ H) as O. cbv zeta in O.
   destruct (oc_version _ _ _ _ _ _ _ O) as [E|[_ E]]; rewrite E; lia.
 Qed.
+
+(* ---------- pods are never created by a kill ---------- *)
+Lemma pod_ids_update : forall t i f l,
+  (forall p, p_task (f p) = p_task p /\ p_idx (f p) = p_idx p) ->
+  pod_ids (update_pod t i f l) = pod_ids l.
+Proof.
+  intros t i f l Hf. unfold pod_ids, update_pod. rewrite map_map. apply map_ext.
+  intros p. destruct (same_id t i p); auto. destruct (Hf p) as [-> ->]. reflexivity.
+Qed.
+Lemma pod_ids_api_delete : forall t i l, pod_ids (api_delete t i l) = pod_ids l.
+Proof. intros. apply pod_ids_update. intros p; split; reflexivity. Qed.
+Lemma pod_ids_api_patch : forall t i l, pod_ids (api_patch_oos t i l) = pod_ids l.
+Proof. intros. apply pod_ids_update. intros p; split; reflexivity. Qed.
+
+Lemma kill_effects_ids : forall F kill api, pod_ids (kill_effects F kill api) = pod_ids api.
+Proof.
+  intros F kill. unfold kill_effects. induction kill as [|p kill IH]; intros api; cbn [fold_left]; auto.
+  rewrite IH. destruct (fails_patch F (p_task p) (p_idx p)); auto.
+  destruct (p_del p || fails_delete F (p_task p) (p_idx p)).
+  - apply pod_ids_api_patch.
+  - rewrite pod_ids_api_delete. apply pod_ids_api_patch.
+Qed.
+
+Lemma kill_pods_ids : forall w rt tg u F w' e wr,
+  kill_pods w rt tg u F = (w', e, wr) -> pod_ids (w_pods w') = pod_ids (w_pods w).
+Proof.
+  intros w rt tg u F w' e wr H. unfold kill_pods in H.
+  destruct tg as [[t|t p|]|].
+  all: try (destruct (kill_select _ _ _ _ _) as [kill term0] eqn:Hsel;
+            destruct (any_fault F kill); [inversion H; subst; clear H|
+            destruct (fails_status F 0); [inversion H; subst; clear H|]]).
+  all: try (inversion H; subst; clear H).
+  all: try match goal with |- context [match ?g with Some _ => _ | None => _ end] => destruct g end.
+  all: cbn; auto using kill_effects_ids.
+Qed.
+
+(* the written status of every successful kill: all five phase counters are zero
+   and the per-task table is empty, whatever pods were retained (defect F2) *)
+Theorem kill_zeroes_counters : forall w rt tg u F w',
+  kill_pods w rt tg u F = (w', false, true) ->
+  st_cnt (w_st w') = c0 /\ st_tsc (w_st w') = [].
+Proof.
+  intros w rt tg u F w' H. unfold kill_pods in H.
+  destruct tg as [[t|t p|]|].
+  all: try (destruct (kill_select _ _ _ _ _) as [kill term0] eqn:Hsel;
+            destruct (any_fault F kill); [inversion H|
+            destruct (fails_status F 0); [inversion H|]]).
+  all: try (inversion H; subst; clear H).
+  all: try match goal with |- context [match ?g with Some _ => _ | None => _ end] => destruct g end.
+  all: cbn; rewrite apply_upd_cnt, apply_upd_tsc; cbn; auto.
+Qed.
+
+(* ---------- T2: final phases are absorbing, over every history ---------- *)
+Definition final_inv (w : world) : Prop :=
+  is_final (st_phase (v_st w)) = true /\ st_phase (w_st w) = st_phase (v_st w).
+
+Lemma exec_final : forall p a, is_final p = true -> exec p a = (KKill RSoft, UNil).
+Proof. destruct p; cbn; intros; try discriminate; reflexivity. Qed.
+
+Lemma final_step : forall w o w' e wr,
+  final_inv w -> step w o = (w', e, wr) ->
+  final_inv w' /\ st_phase (v_st w') = st_phase (v_st w) /\
+  incl (pod_ids (w_pods w')) (pod_ids (w_pods w)).
+Proof.
+  intros w o w' e wr [Hf He] H. destruct o; cbn in H.
+  - (* a request *)
+    pose proof (step_req_outcome _ _ _ _ _ _ H) as O. cbv zeta in O.
+    unfold step_req in H. rewrite (exec_final _ _ Hf) in H, O. cbn [fst snd] in O.
+    assert (Hp : st_phase (v_st w') = st_phase (v_st w)).
+    { assert (Hs : start_phase (st_phase (v_st w)) = st_phase (v_st w))
+        by (destruct (st_phase (v_st w)); try discriminate; reflexivity).
+      destruct (oc_core _ _ _ _ _ _ _ O) as [(_ & [E|E])|(b & _ & Hb & Hb' & _)]; try congruence.
+      cbn in Hb'. destruct Hb; congruence. }
+    split; [split|split]; auto.
+    + congruence.
+    + destruct (oc_api _ _ _ _ _ _ _ O) as [E|[E|[E _]]]; try congruence.
+      rewrite E in Hf. discriminate.
+    + rewrite (kill_pods_ids _ _ _ _ _ _ _ _ H). apply incl_refl.
+  - inversion H; subst; clear H. cbn. repeat split; auto.
+    rewrite pod_ids_update; [apply incl_refl|intros p; split; reflexivity].
+  - inversion H; subst; clear H. cbn. repeat split; auto. rewrite pod_ids_api_delete. apply incl_refl.
+  - inversion H; subst; clear H. cbn. repeat split; auto.
+    unfold pod_ids, remove_pod. intros x Hx. apply in_map_iff in Hx. destruct Hx as (p & <- & Hp).
+    apply filter_In in Hp. apply in_map_iff. exists p. tauto.
+  - inversion H; subst; clear H. destruct (w_pg w); cbn; repeat split; auto using incl_refl.
+  - inversion H; subst; clear H. unfold final_inv; cbn. rewrite He. repeat split; auto using incl_refl.
+  - inversion H; subst; clear H. cbn. repeat split; auto using incl_refl.
+  - inversion H; subst; clear H. cbn. repeat split; auto using incl_refl.
+  - inversion H; subst; clear H. cbn. repeat split; auto using incl_refl.
+Qed.
+
+Lemma run_cons : forall w o ops, run w (o :: ops) = run (fst (fst (step w o))) ops.
+Proof. reflexivity. Qed.
+
+Theorem final_phases_absorbing : forall ops w,
+  is_final (st_phase (v_st w)) = true -> st_phase (w_st w) = st_phase (v_st w) ->
+  let w' := run w ops in
+  st_phase (v_st w') = st_phase (v_st w) /\ st_phase (w_st w') = st_phase (v_st w) /\
+  incl (pod_ids (w_pods w')) (pod_ids (w_pods w)).
+Proof.
+  induction ops as [|o ops IH]; intros w Hf He.
+  - cbn. repeat split; auto using incl_refl.
+  - cbv zeta. rewrite run_cons. destruct (step w o) as [[w1 e] wr] eqn:Hs. cbn [fst].
+    destruct (final_step w o w1 e wr (conj Hf He) Hs) as ([Hf1 He1] & Hp & Hi).
+    destruct (IH w1 Hf1 He1) as (A & B & C). repeat split; try congruence.
+    eapply incl_tran; eauto.
+Qed.
+
+(* ---------- T6: the version on the API server never goes back, over every history ---------- *)
+Definition ver_inv (w : world) : Prop := st_version (w_st w) <= st_version (v_st w).
+
+Lemma ver_step : forall w o w' e wr,
+  ver_inv w -> step w o = (w', e, wr) -> ver_inv w' /\ st_version (w_st w) <= st_version (w_st w').
+Proof.
+  intros w o w' e wr Hi H. unfold ver_inv in *. destruct o; cbn in H.
+  - pose proof (step_req_outcome _ _ _ _ _ _ H) as O. cbv zeta in O.
+    pose proof (version_step _ _ _ _ _ _ H) as V.
+    destruct (oc_api _ _ _ _ _ _ _ O) as [E|[E|[_ E]]]; rewrite E; cbn; lia.
+  - inversion H; subst; cbn; lia.
+  - inversion H; subst; cbn; lia.
+  - inversion H; subst; cbn; lia.
+  - inversion H; subst; destruct (w_pg w); cbn; lia.
+  - inversion H; subst; cbn; lia.
+  - inversion H; subst; cbn; lia.
+  - inversion H; subst; cbn; lia.
+  - inversion H; subst; cbn; lia.
+Qed.
+
+Theorem version_monotone : forall ops w,
+  st_version (w_st w) <= st_version (v_st w) ->
+  st_version (w_st w) <= st_version (w_st (run w ops)) /\
+  st_version (w_st (run w ops)) <= st_version (v_st (run w ops)).
+Proof.
+  induction ops as [|o ops IH]; intros w Hi.
+  - cbn. split; [lia|exact Hi].
+  - rewrite run_cons. destruct (step w o) as [[w1 e] wr] eqn:Hs. cbn [fst].
+    destruct (ver_step w o w1 e wr Hi Hs) as [Hi1 Hle].
+    destruct (IH w1 Hi1) as [A B]. split; [lia|exact B].
+Qed.
+
+(* ---------- T8: counters partition -- refuted on the faithful model ---------- *)
+Definition fresh_world (w : world) : Prop :=
+  v_pods w = w_pods w /\ v_st w = w_st w /\ v_spec w = w_spec w /\ v_pg w = w_pg w.
+
+(* the full-strength statement *)
+Definition counters_partition_statement : Prop :=
+  forall w r w' wr, fresh_world w -> step_req w r [] = (w', false, wr) -> wr = true ->
+    partition_ok (w_st w') (w_pods w') = true.
+
+Definition one_task_spec : spec := mkSpec [mkTask 1 1 (Some 1) [] None] 1 None 3 [].
+Definition sync_req : req := mkReq EOutOfSync None None None 0 0 1.
+
+(* F2: a Completed job with its retained Succeeded pod; the next sync request
+   makes finishedState kill the job and write succeeded = 0 *)
+Definition f2_world : world :=
+  init_world one_task_spec
+    (mkStatus PhCompleted 0 0 1 (mkC 0 0 1 0 0) 0 [(1%positive, mkC 0 0 1 0 0)] false false)
+    [mkPod 1 0 PSucceeded false false] (Some PgRunning).
+
+Theorem counters_partition_refuted : ~ counters_partition_statement.
+Proof.
+  intros H.
+  specialize (H f2_world sync_req (fst (fst (step_req f2_world sync_req []))) true).
+  assert (F : fresh_world f2_world) by (repeat split).
+  specialize (H F eq_refl eq_refl). vm_compute in H. discriminate.
+Qed.
+
+(* second class: an out-of-sync pod that is still alive is counted by its phase
+   AND as terminating by syncJob *)
+Definition oos_world : world :=
+  init_world one_task_spec
+    (mkStatus PhRunning 0 0 1 (mkC 0 1 0 0 0) 0 [(1%positive, mkC 0 1 0 0 0)] false false)
+    [mkPod 1 0 PRunning false true] (Some PgRunning).
+Theorem counters_partition_refuted_out_of_sync :
+  exists w', step_req oos_world sync_req [] = (w', false, true) /\ fresh_world oos_world /\
+             partition_ok (w_st w') (w_pods w') = false /\
+             st_cnt (w_st w') = mkC 0 1 0 0 0 /\ st_term (w_st w') = 1 /\ length (w_pods w') = 1%nat.
+Proof. eexists. split; [vm_compute; reflexivity|]. repeat split. Qed.
+
+(* third class: while the PodGroup is not admitted the counters are not recomputed *)
+Definition pgpending_world : world :=
+  init_world one_task_spec
+    (mkStatus PhRestarting 3 1 1 c0 1 [] false true) [] None.
+Theorem counters_partition_refuted_pg_pending :
+  exists w', step_req pgpending_world sync_req [] = (w', false, true) /\ fresh_world pgpending_world /\
+             partition_ok (w_st w') (w_pods w') = false /\ st_term (w_st w') = 1 /\ w_pods w' = [].
+Proof. eexists. split; [vm_compute; reflexivity|]. repeat split. Qed.
+
+(* ---------- non-vacuity ---------- *)
+Example final_inv_nonvacuous :
+  final_inv f2_world /\
+  st_phase (v_st (run f2_world [OReq sync_req []; OSyncPods; OReq sync_req [FStatus 0]])) = PhCompleted.
+Proof. split; [split; reflexivity|vm_compute; reflexivity]. Qed.
+
+Example maxretry_nonvacuous :
+  let w := init_world one_task_spec (mkStatus PhRestarting 3 1 1 c0 1 [] false true) [] None in
+  st_phase (v_st w) = PhRestarting /\ s_maxretry (v_spec w) <= st_retry (v_st w) /\
+  exists w', step_req w sync_req [] = (w', false, true) /\ st_phase (w_st w') = PhFailed.
+Proof. cbn. repeat split; try lia. eexists; split; vm_compute; reflexivity. Qed.
+
+Example aborted_nonvacuous :
+  let w := init_world one_task_spec (mkStatus PhAborted 0 1 1 c0 0 [] false true) [] None in
+  let r := mkReq ECommandIssued (Some AResume) None None 0 0 1 in
+  exists w', step_req w r [] = (w', false, true) /\ st_phase (v_st w') = PhRestarting /\ st_retry (v_st w') = 1.
+Proof. eexists; repeat split; vm_compute; reflexivity. Qed.
+
+Example fault_nonvacuous :
+  let w := init_world one_task_spec (mkStatus PhNone 0 0 0 c0 0 [] true false) [] (Some PgRunning) in
+  exists w', step_req w sync_req [FCreate 1 0] = (w', true, true) /\
+             w_st w' = init_status one_task_spec (v_st w) /\ w_pods w' = [].
+Proof. eexists; repeat split; vm_compute; reflexivity. Qed.
